@@ -417,6 +417,18 @@ class Program:
             raise KeyError('anchor function not found: ' + fid)
         return b
 
+    def find_fn(self, name):
+        """unique non-test fn whose id is `name` or ends with `::name` (module prefixes are printed trimmed by rustc)"""
+        if name in self.by_id:
+            return self.by_id[name]
+        last = name.split('::')[-1]
+        c = [b for f, b in self.by_id.items() if (f == last or f.endswith('::' + last)) and not b.test and '{closure' not in f
+             and b.impl_pos is None]
+        if len(c) == 1:
+            return c[0]
+        c2 = [b for b in c if b.fid.endswith(name)]
+        return c2[0] if len(c2) == 1 else None
+
     def find(self, pat):
         r = re.compile(pat)
         return [b for f, b in self.by_id.items() if r.search(f)]
